@@ -845,6 +845,22 @@ fn s(txt: &str) -> Vec<u8> {
 
 /// Fixed corpus: the windows the proofs split on, and the witnesses of the defects.
 fn corpus() -> Vec<Case> {
+  let mut v = corpus_fixed();
+  // (B) second sample (insert + all three notifications) lands after k consumer steps, k sweeping
+  // over the whole first wake-up: poll, the drains, the fills, the hand-over, the empty take
+  for k in 4..=11usize {
+    for v08 in [true, false] {
+      let mut l = vec![0u8; 4];
+      l.extend(std::iter::repeat(1u8).take(k));
+      l.extend([0u8; 4]);
+      l.extend([1u8; 3]);
+      v.push(Case::B { v08, n: 2, l });
+    }
+  }
+  v
+}
+
+fn corpus_fixed() -> Vec<Case> {
   vec![
     // (A) sample arrives between the first take and set_waker / between set_waker and the re-check /
     //     after the re-check (wake), waker stale from an earlier Pending
